@@ -4,6 +4,7 @@
 // sits in an iostream buffer is not.
 #pragma once
 #include <cstdint>
+#include <functional>
 #include <map>
 #include <memory>
 #include <string>
@@ -91,6 +92,9 @@ public:
   // image after the first n journal entries (applied to the image captured by
   // journal_start), plus `partial` bytes of entry n if that is a WRITE
   FsImage image_at(size_t n, size_t partial) const;
+
+  // observer (harness side, must not touch the scheduler): a walker opened an existing file for reading
+  std::function<void(int walker, std::string const &path, uint64_t file_id)> on_open_read;
 
   FsStats stats;
   bool active = false;
